@@ -71,14 +71,13 @@ def gen_geometry(rng, D, cls):
             h = _r(10 ** rng.uniform(4, 6), 3)
             lb.append(-h); ub.append(h); plb.append(_r(-h * rng.uniform(1e-3, 0.5))); pub.append(_r(h * rng.uniform(1e-3, 0.5))); islog.append(False)
         elif c == "log":
-            a = 10 ** rng.uniform(-6, 2)
-            b = a * 10 ** rng.uniform(1.5, 6)
-            pa = a * 10 ** rng.uniform(0, 0.3)
-            pb = max(pa * 10 ** rng.uniform(1.0, 2.0), pa * 10.0001)
-            pb = min(pb, b)
-            if pb / pa < 10:
-                pa = pb / 12.0
-                a = min(a, pa)
+            # hard bounds within ~1.5 decades of the plausible ones: pybads moves the
+            # plausible bounds inside lb + 1e-3*(ub-lb), so a much larger ub would
+            # make the definition invalid (StrictBounds)
+            pa = 10 ** rng.uniform(-6, 2)
+            pb = pa * 10 ** rng.uniform(1.05, 3.0)
+            a = pa / 10 ** rng.uniform(0, 1.0) if rng.random() < 0.7 else pa
+            b = pb * 10 ** rng.uniform(0, 1.3) if rng.random() < 0.7 else pb
             lb.append(_r(a)); ub.append(_r(b)); plb.append(_r(max(pa, _r(a)))); pub.append(_r(min(pb, _r(b)))); islog.append(True)
         else:
             raise ValueError(cls)
@@ -118,6 +117,11 @@ def gen_x0(rng, g, D, kind):
         for i in range(D):
             if rng.random() < 0.5 and g["plb"][i] > g["lb"][i]:
                 x0[i] = _r(_inside(rng, g["lb"][i], g["plb"][i], g["islog"][i], 0.3), 9)
+    if g["lb"] is not None and cls == "inside":
+        for i in range(D):
+            rngw = g["ub"][i] - g["lb"][i]
+            if not (g["lb"][i] + 1.5e-3 * rngw < x0[i] < g["ub"][i] - 1.5e-3 * rngw):
+                cls = "on_bound"   # pybads moves such points inside the effective bounds
     return x0, cls
 
 
@@ -230,6 +234,38 @@ def gen_cons(rng, g, D, x0, kind):
     raise ValueError(kind)
 
 
+def _special_x0(rng, g, D, cons, x0, mode):
+    """x0 strictly inside the effective bounds that is infeasible, or feasible but
+    very close to the constraint boundary."""
+    from .targets import make_violation
+    v = make_violation(cons, D)
+    lo = [g["lb"][i] + 2e-3 * (g["ub"][i] - g["lb"][i]) for i in range(D)]
+    hi = [g["ub"][i] - 2e-3 * (g["ub"][i] - g["lb"][i]) for i in range(D)]
+    plb = g["plb"] if g["plb"] is not None else lo
+    pub = g["pub"] if g["pub"] is not None else hi
+    bad = None
+    for _ in range(200):
+        cand = [min(max(_inside(rng, plb[i], pub[i], g["islog"][i], 0.02), lo[i]), hi[i]) for i in range(D)]
+        if v(cand) > 0:
+            bad = cand
+            break
+    if bad is None:
+        return None
+    if mode == "infeasible":
+        return [_r(t, 12) for t in bad]
+    good = [min(max(t, lo[i]), hi[i]) for i, t in enumerate(x0)]
+    if v(good) > 0:
+        return None
+    a, b = good, bad
+    for _ in range(60):
+        m = [(p + q) / 2 for p, q in zip(a, b)]
+        if v(m) > 0:
+            b = m
+        else:
+            a = m
+    return [float(t) for t in a]
+
+
 # ---------------------------------------------------------------------------
 # options knobs
 # ---------------------------------------------------------------------------
@@ -263,8 +299,14 @@ def gen_options(rng, D, prof, noise_mode):
     maybe("n_search", 0.4, lambda: _choice(rng, [2, 4, 6, 8, 16, 32, 64, 256, 1024, 4096]))
     maybe("fun_eval_start", 0.25, lambda: rng.randrange(1, 3 * D + 4))
     if rng.random() < knobs.get("n_train", 0.25):
-        o["n_train_min"] = rng.randrange(3, 30)
-        o["n_train_max"] = rng.randrange(5, 60)
+        # n_train_max must stay above the size of the initial design: below it the
+        # N-dependent GP design size (a cubic in (n_eff - n_init)/(n_train_max - n_init))
+        # explodes to millions of points and a single fit takes hours (observed; a
+        # performance hazard of the option, not a property violation) - see DESIGN.md
+        fes = o.get("fun_eval_start", D)
+        esp_bound = 2 + 2 * max(int(fes), 1)
+        o["n_train_max"] = rng.randrange(esp_bound + 4, esp_bound + 44)
+        o["n_train_min"] = rng.randrange(3, o["n_train_max"] + 1)
     maybe("nonlinear_scaling", 0.1, lambda: False)
     maybe("tol_fun", 0.1, lambda: _choice(rng, [1e-2, 1e-4, 1e-6]))
     maybe("tol_stall_iters", 0.15, lambda: rng.randrange(1, 6))
@@ -330,8 +372,9 @@ def make_scenario(seed, profile=None, index=0):
                          c=[_r((p + q) / 2, 6) for p, q in zip(plb, pub)],
                          scale=_r(max(q - p for p, q in zip(plb, pub)), 6), seed=subseed(sseed, "noise"))
             opts_noise["specify_target_noise"] = True
-            if rng.random() < 0.5:
-                opts_noise["uncertainty_handling"] = True
+            # (specify_target_noise without uncertainty_handling=True is rejected by the
+            # constructor with ValueError on this tree; see DESIGN.md, observations)
+            opts_noise["uncertainty_handling"] = True
             noise_mode = "hetero"
         else:
             noise = dict(mode="homo", sigma=sigma, seed=subseed(sseed, "noise"))
@@ -349,6 +392,18 @@ def make_scenario(seed, profile=None, index=0):
         cons["ret"] = "bool" if rng.random() < 0.4 else "float"
         cons["gen_kind"] = ckind
     scn["cons"] = cons
+    if cons is not None and x0 is not None and g["lb"] is not None:
+        mode = None
+        t = rng.random()
+        if t < prof.get("x0_infeasible_p", 0.0):
+            mode = "infeasible"
+        elif t < prof.get("x0_infeasible_p", 0.0) + prof.get("x0_nearcons_p", 0.0):
+            mode = "near_cons"
+        if mode:
+            nx = _special_x0(rng, g, D, cons, x0, mode)
+            if nx is not None:
+                scn["x0"] = nx
+                scn["x0_class"] = mode
     opts = gen_options(rng, D, prof, noise_mode)
     opts.update(opts_noise)
     opts.update(prof.get("force_options", {}))
